@@ -1,6 +1,6 @@
 """C02 — returned MathML is well-formed canonical MathML."""
 import json, re
-import core, mml, canon_run
+import core, mml, canon_run, clean_run
 from canon_run import N
 
 SPECIALS = ["<", ">", "&", "'", '"', "⁡", "⁢", "⁣", "⁤", "a<b", "x&y;", "&amp;", "]]>", "'\"", "é", "𝑥", " ", "&#x3c;", "a⁢b"]
@@ -12,7 +12,10 @@ def run(ctx):
         "the model's escape is compared with the raw text and attribute values of every returned string",
         "the structural clauses (arities, removed wrappers, no empty token, no short mrow, single child of math) are decided by the Lean checker MC.Spec.Canon.wfViolations applied to the "
         "implementation's output; clean_mathml itself is not modelled (7000 lines of heuristics), so these clauses are checked on generated inputs, not proved",
-        "python's xml.etree parser is the reference for 'well-formed XML'"])
+        "modelled, not verified: the structural skeleton of clean_mathml (MC.Clean, the model of C01's clean_conserves): clean_wf / cleanL_length_fixed (MC/Props/C02Clean.lean) -- on every "
+        "tree that passes assure_mathml's arity test the skeleton returns a tree in which every element with a fixed number of children still has it and every one-child element has exactly one; "
+        "tied to the library on every run by hook H7 on generated trees inside the fragment guard (as in C01)",
+        "python's xml.etree parser is the reference for 'well-formed XML'"], extra_modules=["MC.Props.C02Clean"])
     rng = ctx.rng
     n = 4000 if ctx.tier == "quick" else 100000
     results = canon_run.run_stream(ctx, im, mo, n, canon_run.LOCALES)
@@ -98,9 +101,24 @@ def run(ctx):
     for (raw, un, it), r in zip(esc_items, mo.run(esc_reqs)):
         if r.get("r") != "ok" or r["v"] != raw:
             disagreements.append({"text": un, "impl": raw, "model": r.get("v"), "lines": it["lines"]})
+    # the clean-up skeleton (clean_wf is proved about it) against the library's clean-up phase, hook H7
+    cl = clean_run.run(ctx, im, mo, 1500 if ctx.tier == "quick" else 30000)
+    cl_in = [r for r in cl if r.get("in_guard")]
+    cl_dis = sorted([r for r in cl_in if not r["agree"]], key=lambda r: len(r["xml"]))
+    cl_witness = None
+    for r in cl_dis[:30]:
+        rep = im.run([{"op": "session"}, {"op": "rules_dir", "dir": core.rules_dir()}, {"op": "set_mathml", "xml": r["xml"]}])[-1]
+        if rep.get("r") == "ok":
+            inp, out = canon_run.xml_to_json(r["xml"]), canon_run.xml_to_json(rep["v"])
+            c = mo.run([{"op": "canon_check", "inp": inp, "out": out}])[0].get("v") or {}
+            if c.get("wf"):
+                cl_witness = {"why": "; ".join(c["wf"]), "xml": r["xml"], "out": rep["v"], "lines": [{"op": "rules_dir", "dir": core.rules_dir()}, {"op": "set_mathml", "xml": r["xml"]}]}
+                oracle_fail.append(cl_witness)
+                break
     im.close()
     mo.close()
     ctx.coverage.update({
+        "clean_correspondence": {"trees": len(cl), "in_fragment": len(cl_in), "disagreements": len(cl_dis), "out_of_fragment_reasons": clean_run.reason_counts(cl)},
         "evaluations": n_ok, "distinct_nontrivial": len({it["xml"] for it in results + sp_results if it["reply"].get("r") == "ok" and len(re.findall(r"<m", it["xml"])) > 3}),
         "rule": "generated presentation trees (all element kinds, degenerate and empty children, mmultiscripts/mfenced variants, embedded HTML) under 4 separator locales + a special-character stream "
                 "(text and attribute values drawn from XML-significant characters, invisible operators, entity-looking text); every Ok reply is parsed, checked by the Lean Spec checker, and every escaped "
@@ -115,6 +133,12 @@ def run(ctx):
     found = bool(ctx.violations)
     if not pr["ok"] and not found:
         ctx.violation("theorem(s) no longer check: " + ", ".join(pr["failed"]), {"kind": "theorem", "theorems": pr["failed"], "lean_output": pr["output"][-1500:]}, tag="theorem", no_input=True)
+    if cl_dis and not found:
+        r = cl_dis[0]
+        ctx.violation("correspondence MC.Clean (clean-up skeleton) vs verif_clean_only no longer holds on %d of %d in-fragment trees, e.g. %s" % (len(cl_dis), len(cl_in), r["xml"][:300]),
+                      {"kind": "correspondence", "correspondence": "MC.Clean.cleanMath vs hook H7 verif_clean_only", "input": r["xml"], "impl": r["impl_shape"] if r["impl_shape"] is not None else r["impl"],
+                       "model": r["model_shape"], "lines": r["lines"]}, tag="corr", no_input=True)
+        found = True
     if disagreements and not found:
         d = disagreements[0]
         ctx.violation("model and implementation escape differently: " + json.dumps({k: v for k, v in d.items() if k != "lines"}, ensure_ascii=False)[:400],
